@@ -75,7 +75,8 @@ def run(tier, seed, replay=None):
             row = ev.mt.get(pi, [])
             if len(app) == 1:
                 bi = app[0]
-                for j, (kind, name, _) in enumerate(plan.items):
+                printed = [it for it in plan.items if it[0] in ("const", "fn", "pfn")]
+                for j, (kind, name, _) in enumerate(printed):
                     want = f"b{bi}.{name}"
                     got = row[1 + j] if 1 + j < len(row) else "?"
                     rep.count("item-checked")
@@ -91,6 +92,8 @@ def run(tier, seed, replay=None):
             bi = ev.applicable(pi)[0]
             m = blocks[bi][2]
             for kind, name, _ in plan.items:
+                if kind not in ("const", "fn", "pfn"):
+                    continue
                 vis = m.vis.get(name, "")
                 (readable if vis.startswith("pub") else hidden).append((pi, kind, name, bi))
         if readable:
